@@ -387,7 +387,7 @@ func c07Expiry(r *ev.Run, caseID string, b time.Duration, kaShort bool) {
 
 // c07IdleExpiry: the session dies of idleness (no authenticated traffic for longer than KeepAliveTimeout) long before the
 // rekey timer is due; the next Send, from either side, must bring a new session up within the usual bound.
-func c07IdleExpiry(r *ev.Run, caseID string, b time.Duration, who int, idleFactor int) {
+func c07IdleExpiry(r *ev.Run, caseID string, b time.Duration, who int, idleFactor int, lateDup bool) {
 	tm := p2pke.VerifTimings{HandshakeBackoff: b, KeepAliveTimeout: 30 * b, RekeyAfterTime: 8 * time.Second, RejectAfterTime: 12 * time.Second}
 	n := newCnet(cendCfg{key: keyN(31), timings: tm}, cendCfg{key: keyN(32), timings: tm}, nil)
 	n.goPrompt()
@@ -404,6 +404,22 @@ func c07IdleExpiry(r *ev.Run, caseID string, b time.Duration, who int, idleFacto
 		}
 		return
 	}
+	if lateDup {
+		// the network delivers late copies of the handshake messages of the session that is now established (and has
+		// carried application data): they must not leave anything behind that keeps a later Send from starting afresh
+		n.mu.Lock()
+		var late []*cmsg
+		for _, m := range n.log {
+			if m.Ctr < 16 {
+				late = append(late, m)
+			}
+		}
+		n.mu.Unlock()
+		for _, m := range late {
+			n.push(1-m.From, m.Bytes)
+		}
+		time.Sleep(3 * b)
+	}
 	time.Sleep(time.Duration(idleFactor) * tm.KeepAliveTimeout / 10)
 	n.mu.Lock()
 	n.retrans = 0
@@ -418,10 +434,13 @@ func c07IdleExpiry(r *ev.Run, caseID string, b time.Duration, who int, idleFacto
 		if who == 1 {
 			side = "responder"
 		}
-		r.Violate(sig+"/after-idle-expiry/"+side, caseID, desc, map[string]any{"idle_ms": (time.Duration(idleFactor) * tm.KeepAliveTimeout / 10).Milliseconds(), "keepalive_ms": tm.KeepAliveTimeout.Milliseconds(), "rekey_ms": tm.RekeyAfterTime.Milliseconds(), "messages": n.describeLog(60)})
+		if lateDup {
+			side += "/late-handshake-duplicates"
+		}
+		r.Violate(sig+"/after-idle-expiry/"+side, caseID, desc, map[string]any{"late_duplicates": lateDup, "idle_ms": (time.Duration(idleFactor) * tm.KeepAliveTimeout / 10).Milliseconds(), "keepalive_ms": tm.KeepAliveTimeout.Milliseconds(), "rekey_ms": tm.RekeyAfterTime.Milliseconds(), "messages": n.describeLog(60)})
 		return
 	}
-	r.NonTrivial(fmt.Sprintf("idle-expiry/who%d/idle%d", who, idleFactor))
+	r.NonTrivial(fmt.Sprintf("idle-expiry/who%d/idle%d/latedup=%v", who, idleFactor, lateDup))
 }
 
 // c07Overtake: every RespDone is lost (or the first few are), so the initiator learns of completion from the responder's
@@ -501,7 +520,7 @@ func c07Scripts(maxLen int) []string {
 }
 
 func runC07(r *ev.Run) {
-	r.Rule = "two real Channels whose Send callbacks feed the harness; phase 1 applies a script over the first k emitted messages (every string over {deliver, drop, duplicate, hold-and-swap} up to length k), crossed with the timing of the two sides' first Send and a restart of the peer after message j; phase 2 delivers promptly. Logical clock = handshake retransmissions since phase 2 began: a Send pending after K=10 of them, or pending while the network is quiet with no handshake timer armed, is a violation; then traffic must flow both ways. Rotation: steady two-way traffic (and one-way traffic from either side, the other having only brought the channel up) over 6 rekey periods (no Send may stall, no plaintext twice, handshakes started ~ once per rekey whatever KeepAlive is). Expiry: silence longer than RejectAfter, then a Send; idle expiry: silence of 0.9..3.5 KeepAliveTimeouts with the rekey timer far away, then a Send from the earlier initiator or responder. non-trivial = script perturbed a message / both initiated / restart; distinct = (script, timing, restart point, keep-alive class)"
+	r.Rule = "two real Channels whose Send callbacks feed the harness; phase 1 applies a script over the first k emitted messages (every string over {deliver, drop, duplicate, hold-and-swap} up to length k), crossed with the timing of the two sides' first Send and a restart of the peer after message j; phase 2 delivers promptly. Logical clock = handshake retransmissions since phase 2 began: a Send pending after K=10 of them, or pending while the network is quiet with no handshake timer armed, is a violation; then traffic must flow both ways. Rotation: steady two-way traffic (and one-way traffic from either side, the other having only brought the channel up) over 6 rekey periods (no Send may stall, no plaintext twice, handshakes started ~ once per rekey whatever KeepAlive is). Expiry: silence longer than RejectAfter, then a Send; idle expiry: silence of 0.9..3.5 KeepAliveTimeouts with the rekey timer far away, then a Send from the earlier initiator or responder, with and without late copies of the established session's handshake messages arriving first. non-trivial = script perturbed a message / both initiated / restart; distinct = (script, timing, restart point, keep-alive class)"
 	r.Assumptions = []string{"K=10 retransmission rounds is the 'small bounded number' of the property; timers are real (5-20 ms backoff), verdicts are on retransmission counts and quiescence, the wall-clock watchdog only yields 'inconclusive'"}
 	scripts := c07Scripts(pick(r, 4, 5))
 	timings := []string{"A", "B", "both", "BafterA"}
@@ -600,13 +619,16 @@ func runC07(r *ev.Run) {
 			for who := 0; who < 2; who++ {
 				who := who
 				idle := []int{12, 20, 9, 35}[(i+r.Batch)%4] // tenths of KeepAliveTimeout
-				id3 := fmt.Sprintf("idle-%d-%d-ka%v-who%d", r.Batch, i, ka, who)
-				if ka && r.Want(id3) {
-					wg.Add(1)
-					go func() {
-						defer wg.Done()
-						c07IdleExpiry(r, id3, 10*time.Millisecond, who, idle)
-					}()
+				for _, ld := range []bool{false, true} {
+					ld := ld
+					id3 := fmt.Sprintf("idle-%d-%d-ka%v-who%d-latedup%v", r.Batch, i, ka, who, ld)
+					if ka && r.Want(id3) {
+						wg.Add(1)
+						go func() {
+							defer wg.Done()
+							c07IdleExpiry(r, id3, 10*time.Millisecond, who, idle, ld)
+						}()
+					}
 				}
 			}
 			id2 := fmt.Sprintf("exp-%d-%d-ka%v", r.Batch, i, ka)
